@@ -142,19 +142,22 @@ def run_query(q):
     rc, out, w, _ = run(['cbmc', '--show-loops', gb], timeout=120, mem_gb=8)
     cl = parse_show_loops(out)
     # map cbmc loops to translator loops by C line (the generated unit .c is #included, so file = unit.c)
-    by_id = {}
-    for lp in u.loops: by_id['%s.%d' % (lp['cfn'], lp['idx'])] = lp
+    # map cbmc loops to translator loops: same C function and C line; several back edges on one line are matched in order
+    by_fl = {}
+    for lp in u.loops: by_fl.setdefault((lp['cfn'], lp['c_line']), []).append(lp)
+    seen_fl = {}
     us = []; unmapped = []
-    for l in cl:
-        b = None
-        lp = by_id.get(l['id']) if os.path.basename(l['file']) == os.path.basename(u.c) else None
-        if lp is not None and lp['c_line'] != l['line']: lp = None      # numbering sanity check: same C line
+    for l in sorted(cl, key=lambda x: (x['function'], int(x['id'].rsplit('.', 1)[1]))):
+        b = None; lp = None
+        if os.path.basename(l['file']) == os.path.basename(u.c):
+            key = (l['function'], l['line']); k = seen_fl.get(key, 0); seen_fl[key] = k + 1
+            cands = by_fl.get(key, [])
+            if cands: lp = cands[min(k, len(cands) - 1)]
         if lp is not None:
-            sf = lp['src_fn']
-            if sf in q.bounds: b = q.bounds[sf]
-            else:
-                for k in lp.get('chain') or []:
-                    if k in q.bounds: b = q.bounds[k]; break
+            # the bound is the largest one named anywhere in the loop's inlining chain (an outer loop merged with inner code keeps the outer bound)
+            names = [lp['src_fn']] + list(lp.get('chain') or [])
+            bs = [q.bounds[n] for n in names if n in q.bounds]
+            if bs: b = max(bs) if lp['src_fn'] not in q.bounds else q.bounds[lp['src_fn']]
         if b is None:
             for pat, bb in q.fn_bounds.items():
                 if re.fullmatch(pat, l['function']): b = bb; break
@@ -210,7 +213,7 @@ def parse_trace_inputs(out, names):
                 for i, x in enumerate(xs): arr.setdefault(i, x)
             except ValueError: pass
         if arr:
-            vals[n] = [arr.get(i, 0) & 0xffffffff for i in range(max(arr) + 1)]; continue
+            vals[n] = [arr.get(i, 0) & 0xffffffffffffffff for i in range(max(arr) + 1)]; continue
         ms = re.findall(r'^\s*%s=(-?\d+)' % re.escape(n), txt, re.M)
         if ms: vals[n] = int(ms[-1])
     return vals
